@@ -25,7 +25,7 @@ func init() {
 			"R3: Storage.Delete is dominated by the true edge of CompareAndSwap(held,1,0) on the same Locker. R4: every storage call uses the Locker's own key field, which is stored only by NewLocker. R5: the held flag is touched only through sync/atomic. " +
 			"L1: the lock record is always written with ExpiresAt = now + lease, the clock read at the time of the write (a record born expired lets a second caller in). S1/S2: the in-memory storage the lockers race on executes every operation as one critical section and lets Create succeed only on the key-absent edge. " +
 			"R7: the lease renewal writes only by CasByVersion. R8: an attempt that ran its failure epilogue (token given back) cannot report success. " +
-			"R6: a tenure issues at most one Delete (a by-key delete repeated after a lost reply removes a successor's record).",
+			"R6: a tenure issues at most one Delete (a by-key delete repeated after a lost reply removes a successor's record). L2: the lease renewal does not run under the context of the acquisition call (that context normally ends right after the call returned; every renewal would fail and the record lapse under the holder).",
 		NotDecided: "exclusion itself over interleavings and fault placements (needs C02 for the storage and the lease assumption).",
 	})
 	register(&Check{
@@ -37,7 +37,7 @@ func init() {
 			"R3: on the ErrExist edge the loop waits with WaitForVersionChange(ctx,key,v), v the version returned by the failed Create, and goes round again on a fresh ctx.Err(). " +
 			"R4: the token helpers return nil only on the 'still open' edge of a shutdown test made after taking the token. R5: the local wait has a ctx.Done() case returning ctx.Err(); Shutdown closes the done channel. " +
 			"R6: the lease renewal writes only by CasByVersion (it never re-creates a record: ErrNotExist also means the holder unlocked). R7: an attempt that gave the token back reports failure. " +
-			"W1/W2: in the in-memory store every mutation notifies the key's waiters and the waiter's check and registration are one critical section (no lost wake-up at the storage level). R8: on every path from the return of the storage wait to the next Create the shutdown channel is tested and found open (paths enumerated with phi operands resolved per path). W7: a waiter registers again on its entry only after the previous registration was withdrawn or consumed by a notification.",
+			"W1/W2: in the in-memory store every mutation notifies the key's waiters and the waiter's check and registration are one critical section (no lost wake-up at the storage level). R8: on every path from the return of the storage wait to the next Create the shutdown channel is tested and found open (paths enumerated with phi operands resolved per path). W7: a waiter registers again on its entry only after the previous registration was withdrawn or consumed by a notification. R9: an attempt resets the held flag before it puts the local token back (in the other order a goroutine sharing the Locker takes the token while the flag still reads held, fails on the flag and the token is lost).",
 		NotDecided: "absence of lost wake-ups over all schedules as such; fairness.",
 	})
 	register(&Check{
@@ -48,7 +48,7 @@ func init() {
 		Explanation: "L1: every record passed to Create/CasByVersion has ExpiresAt = now + lease. L2: between the Create success edge and the success exit a renewal is armed with timeout.Call(fn, lease/k), k>=2, fn reaching the renewal routine with that Create's version, and stored in the Locker's timer slot. " +
 			"L3: the renewal's CAS success edge re-arms with the new version; exits after a definitive loss (ErrNotExist/ErrConflict) arm nothing and write nothing. L4: every exit of the renewal that arms nothing is dominated by a positive class test for ErrNotExist or ErrConflict (a transient error must not end the chain). " +
 			"L8: the renewal writes only by CasByVersion; a retry after an error is armed only when both ErrNotExist and ErrConflict were excluded. L5: the renewal is a CAS on the Locker's key with the tenure's version. L6: the renewal does not use the acquisition's context. L7: Unlock cancels the armed timer before deleting the record. " +
-			"T1-T7: the timer keeps heap indices current and Cancel is guarded (C12 rules). U1-U6: a queued renewal is not slept through (C13 rules). E1/E2: the in-memory store treats an expired record as absent and bounds a parked waiter by the expiry (dead-holder clause). L9: the renewal cancels the timer it has just armed under a condition that reads the Locker's held flag / tenure - the compare-and-swap of the timer slot alone does not see an Unlock (open finding).",
+			"T1-T7: the timer keeps heap indices current and Cancel is guarded (C12 rules). U1-U6: a queued renewal is not slept through (C13 rules). E1/E2: the in-memory store treats an expired record as absent and bounds a parked waiter by the expiry (dead-holder clause). L9: the renewal cancels the timer it has just armed under a condition that reads the Locker's held flag / tenure - the compare-and-swap of the timer slot alone does not see an Unlock (open finding). L10: Unlock deletes the lock record on every path (the Delete is what makes a renewal that is still in flight - see L9 - fail on the version and die out; a record that survives Unlock is renewed for ever).",
 		NotDecided: "every timing statement ('within about one lease period'), clock behaviour.",
 	})
 }
